@@ -11,6 +11,12 @@ constexpr parser p1(seq, terms('a', 'b', 'c'), nterms(seq), rules(
     seq('a', seq) >= [](skip, int x) { return x + 1; }, seq('c') >= val(0), seq(error, 'b') >= [](skip, skip) { return 100; }));
 constexpr parser p2(list, terms('x', ';'), nterms(list, item), rules(
     list(item) >= _e1, list(item, list) >= [](int a, int b) { return a + b; }, item('x') >= val(1), item(error, ';') >= [](skip, skip) { return 100; }));
+// empty rules WITHIN what the documented capacity N + EmptyRulesCount + 1 covers: three optional modifiers before a keyword
+// (at most one pending empty reduction per empty rule), on both stacks
+constexpr nterm<int> decl("decl"), ma("ma"), mb("mb"), mc("mc");
+constexpr parser p3(decl, terms('a', 'b', 'c', 'k'), nterms(decl, ma, mb, mc), rules(
+    decl(ma, mb, mc, 'k') >= [](int a, int b, int c, skip) { return a * 100 + b * 10 + c; },
+    ma() >= val(0), ma('a') >= val(1), mb() >= val(0), mb('b') >= val(1), mc() >= val(0), mc('c') >= val(1)));
 template<class P, size_t N> static void one(const P& p, const char* name, const char (&lit)[N]) {
   std::string got, want;
   { auto r = p.parse(string_buffer(lit)); want = r ? std::to_string(*r) : "none"; }
@@ -21,6 +27,7 @@ int main() {
   one(p1, "seq", "c"); one(p1, "seq", "ac"); one(p1, "seq", "aaac"); one(p1, "seq", "aaab"); one(p1, "seq", "b"); one(p1, "seq", "ab"); one(p1, "seq", "aab");
   one(p1, "seq", "aaaaaaab"); one(p1, "seq", "a"); one(p1, "seq", ""); one(p1, "seq", "ca"); one(p1, "seq", "aaa c"); one(p1, "seq", "bb");
   one(p2, "list", ";"); one(p2, "list", "xx;"); one(p2, "list", "x;;"); one(p2, "list", "xxx"); one(p2, "list", "x;x;x"); one(p2, "list", ";;"); one(p2, "list", "xx;x");
+  one(p3, "decl", "k"); one(p3, "decl", "ak"); one(p3, "decl", "bk"); one(p3, "decl", "ck"); one(p3, "decl", "abck"); one(p3, "decl", "a c k"); one(p3, "decl", ""); one(p3, "decl", "kk");
   // constant evaluation of the boundary cases
   constexpr auto c1 = p1.parse(cstring_buffer("aaab")); static_assert(c1.has_value() && *c1 == 103);
   constexpr auto c2 = p2.parse(cstring_buffer("xx;")); static_assert(c2.has_value());
